@@ -48,6 +48,11 @@ var (
 	c14Args = []any{"m"}
 	c14Next func() // innermost function of the //go:noinline chain (a c14sN_* site)
 
+	// what the c14sA_* sites pass with the record (cells with ua = rec-*): an attribute keyed `caller`
+	c14KV      []any          // logg entry points
+	c14SLKV    []any          // log/slog Logger.Info
+	c14SLAttrs []logslog.Attr // log/slog Logger.LogAttrs
+
 	// incremented on the line after every call of the //go:noinline chain, so that the call is not
 	// the last statement of its function (a return address mistaken for the call site would then
 	// show as the following line)
@@ -77,6 +82,49 @@ func c14LineSiteOf(id string) *c14LineSite {
 type c14site struct {
 	inl [c14InlDepth + 1]func() // inl[d]: top of the static, inlinable chain with d wrappers
 	no  func()                  // the //go:noinline site
+	at  func()                  // the //go:noinline site whose call carries attributes (nil: the entry point takes none)
+}
+
+// ---- attributes of the program that are named like the built-in member (dimension `ua` of spec/Caller.tla)
+
+const (
+	c14UAPlain = "billing-service" // caller=<name of the calling service>
+	c14UAFile  = "client.py"       // caller{file, line, function} relayed from a client
+	c14UALine  = 7
+	c14UAFunc  = "rpc.Call"
+)
+
+// entry points that have ua cells (UAEPNames of the specification)
+var c14UAEps = []string{"Info", "InfoContext", "LogAttrs", "Infof", "slog.Warn", "logslog.Info", "logslog.LogAttrs", "stdlog.Print"}
+
+func c14UAAttr(group bool) slog.Attr {
+	if group {
+		return slog.NewGroupedAttr("caller", slog.String("file", c14UAFile), slog.Int("line", c14UALine), slog.String("function", c14UAFunc))
+	}
+	return slog.String("caller", c14UAPlain)
+}
+
+func c14UASLAttr(group bool) logslog.Attr {
+	if group {
+		return logslog.Group("caller", logslog.String("file", c14UAFile), logslog.Int("line", c14UALine), logslog.String("function", c14UAFunc))
+	}
+	return logslog.String("caller", c14UAPlain)
+}
+
+// what the last-wins decoders found under the name of the caller field (set by c14Decode):
+// JSON: the value of the last member `caller`; logfmt: the last caller.file
+var c14CallerRaw any
+
+// c14IsUA: the decoded caller field is the program's attribute, not the built-in member.
+func c14IsUA(raw any) bool {
+	switch v := raw.(type) {
+	case string:
+		return v == c14UAPlain || v == c14UAFile
+	case map[string]any:
+		f, _ := v["file"].(string)
+		return f == c14UAFile
+	}
+	return false
 }
 
 // ---- the //go:noinline wrapper chain (shared by all entry points; the site is c14Next)
@@ -198,6 +246,15 @@ type c14Cell struct {
 	Other int    `json:"other"`
 	Depth int    `json:"depth"`
 	Site  string `json:"site"` // "go" / "": ordinary source file; else the id of a //line chain
+	UA    string `json:"ua"`   // "none" / "": no attribute keyed `caller`; else <rec|log|hdl>-<plain|group>
+}
+
+func (c *c14Cell) ua() (where string, group bool) {
+	if c.UA == "" || c.UA == "none" {
+		return "", false
+	}
+	p := strings.SplitN(c.UA, "-", 2)
+	return p[0], len(p) == 2 && p[1] == "group"
 }
 
 func (c *c14Cell) line() *c14LineSite {
@@ -228,6 +285,7 @@ type c14Detail struct {
 	User     []c14Frame `json:"user"`               // user frames of the real stack, innermost first
 	Record   string     `json:"record"`             //
 	HErr     string     `json:"herr"`               // harness-side problem (not a statement about the library)
+	UASeen   bool       `json:"uaseen,omitempty"`   // the program's attribute keyed `caller` is somewhere in the record
 	SiteFile string     `json:"sitefile,omitempty"` // file name of the //line chain (quoted)
 }
 
@@ -251,7 +309,15 @@ func c14Main(args []string) int {
 				sort.Strings(lineEps)
 			}
 		}
+		var uaRec []string
+		for k, st := range c14Sites {
+			if st.at != nil {
+				uaRec = append(uaRec, k)
+			}
+		}
+		sort.Strings(uaRec)
 		b, _ := json.Marshal(map[string]any{"eps": names, "inl_depth": c14InlDepth, "no_depth": c14NoDepth,
+			"ua_eps": c14UAEps, "ua_rec_eps": uaRec,
 			"line_sites": lineSites, "line_eps": lineEps, "line_depth": c14LineDepth,
 			"hist_withs": clr14Withs, "hist_touches": clr14Touches, "hist_fams": clr14Fams, "hist_eps": clr14Eps})
 		fmt.Println(string(b))
@@ -286,6 +352,9 @@ func c14Main(args []string) int {
 		if err := json.Unmarshal([]byte(line), &c); err != nil {
 			fmt.Fprintln(os.Stderr, "bad cell:", err)
 			return 2
+		}
+		if c.UA == "" {
+			c.UA = "none"
 		}
 		d := c14Run(&c)
 		trace.emit(c14TraceLine{c14Cell: c, Got: d.Got})
@@ -442,12 +511,23 @@ func c14Run(c *c14Cell) (d c14Detail) {
 	// given (the usual order) or - every other cell - BEFORE the last SetSkip: the attribution must
 	// follow the logger's current skip count either way
 	built := false
+	uaWhere, uaGroup := c.ua()
+	if uaWhere == "log" { // the logger itself carries the attribute (a WithSkip child inherits it)
+		if c14Serial%2 == 0 {
+			root.SetAttrs(c14UAAttr(uaGroup))
+		} else {
+			root.Set(c14UAAttr(uaGroup))
+		}
+	}
 	buildFront := func(t slog.Logger) {
 		c14SL, c14Std = nil, nil
 		switch c.Fam {
 		case "adapter":
 			h := slog.NewSlogHandler(t, &slog.HandlerOptions{NoColor: c.Fmt != "color", JSON: c.Fmt == "json"})
 			c14SL = logslog.New(h)
+			if uaWhere == "hdl" { // Logger.With -> Handler.WithAttrs
+				c14SL = c14SL.With(c14UASLAttr(uaGroup))
+			}
 		case "bridge":
 			c14Std = slog.NewLogLogger(t, slog.InfoLevel)
 		}
@@ -482,6 +562,13 @@ func c14Run(c *c14Cell) (d c14Detail) {
 		d.HErr = "unknown via"
 		return
 	}
+	if uaWhere == "log" && target != base { // a WithSkip child does not print its parent's attributes: it carries its own
+		if e, ok := target.(interface {
+			SetAttrs(attrs ...slog.Attr) *slog.Entry
+		}); ok {
+			e.SetAttrs(c14UAAttr(uaGroup))
+		}
+	}
 	if isDef {
 		if target != base {
 			slog.SetDefault(target) // package-level functions log through the default logger
@@ -493,6 +580,15 @@ func c14Run(c *c14Cell) (d c14Detail) {
 	c14L = target
 	if !built {
 		buildFront(target)
+	}
+	c14KV, c14SLKV, c14SLAttrs = nil, nil, nil
+	if uaWhere == "rec" {
+		if !uaGroup && c14Serial%2 == 0 {
+			c14KV, c14SLKV = []any{"caller", c14UAPlain}, []any{"caller", c14UAPlain} // key, value pairs
+		} else {
+			c14KV, c14SLKV = []any{c14UAAttr(uaGroup)}, []any{c14UASLAttr(uaGroup)}
+		}
+		c14SLAttrs = []logslog.Attr{c14UASLAttr(uaGroup)}
 	}
 
 	c14Issue(c, &d, true)
@@ -532,6 +628,16 @@ func c14Issue(c *c14Cell, d *c14Detail, checkFmt bool) {
 		}
 	} else if c.Inl {
 		top = site.inl[c.Depth]
+	} else if uaWhere, _ := c.ua(); uaWhere == "rec" {
+		if site.at == nil {
+			d.HErr = "entry point has no issuing function that passes attributes"
+			return
+		}
+		c14Next = site.at
+		top = site.at
+		if c.Depth > 0 {
+			top = c14NoChain[c.Depth]
+		}
 	} else {
 		c14Next = site.no
 		top = site.no
@@ -570,6 +676,13 @@ func c14Issue(c *c14Cell, d *c14Detail, checkFmt bool) {
 	if checkFmt && d.Shape != c.Fmt {
 		d.HErr = "record is not in the format of the cell"
 		return
+	}
+	if uaWhere, _ := c.ua(); uaWhere != "" {
+		d.UASeen = strings.Contains(d.Record, c14UAPlain) || strings.Contains(d.Record, c14UAFile)
+		if d.Shape != "color" && c14IsUA(c14CallerRaw) { // the last member of that name is the program's attribute
+			d.Got = c14Got{K: "attr", I: -1}
+			return
+		}
 	}
 	if d.Caller == nil {
 		d.Got = c14Got{K: "missing", I: -1}
@@ -635,6 +748,8 @@ func c14CheckChain(c *c14Cell, user []c14Frame) string {
 			want = fmt.Sprintf("main.c14wL%d_%d", ls.k, j)
 		case j == 0 && c.Inl:
 			want = "main.c14sI_" + id
+		case j == 0 && strings.HasPrefix(c.UA, "rec-"):
+			want = "main.c14sA_" + id
 		case j == 0:
 			want = "main.c14sN_" + id
 		case c.Inl:
@@ -666,6 +781,7 @@ func c14Ident(ep string) string {
 var c14SGR = regexp.MustCompile("\x1b\\[[0-9;]*m")
 
 func c14Decode(p []byte) (shape string, cl *c14Caller) {
+	c14CallerRaw = nil
 	s := strings.TrimRight(string(p), "\r\n")
 	switch {
 	case strings.HasPrefix(s, "{"):
@@ -674,6 +790,7 @@ func c14Decode(p []byte) (shape string, cl *c14Caller) {
 		if err := json.Unmarshal([]byte(s), &m); err != nil {
 			return
 		}
+		c14CallerRaw = m["caller"]
 		cm, ok := m["caller"].(map[string]any)
 		if !ok {
 			return
@@ -704,6 +821,9 @@ func c14Decode(p []byte) (shape string, cl *c14Caller) {
 		shape = "logfmt"
 		kv := c14Logfmt(s)
 		file, ok1 := kv["caller.file"]
+		if ok1 {
+			c14CallerRaw = file
+		}
 		line, ok2 := kv["caller.line"]
 		fn, ok3 := kv["caller.function"]
 		n, err := strconv.Atoi(line)
